@@ -154,6 +154,8 @@ pub struct RespSpec {
     pub headers: BTreeMap<String, String>,
     pub body: Bytes,
     pub delay_ms: u64,
+    /// the handler is CPU-bound for this long (own choice stream, so that nothing else shifts)
+    pub hold_ms: u64,
 }
 
 pub fn gen_response(seed: u64, nonce: u64, tier: Tier, big_ok: bool) -> RespSpec {
@@ -171,11 +173,14 @@ pub fn gen_response(seed: u64, nonce: u64, tier: Tier, big_ok: bool) -> RespSpec
         2 => r.gen_range(0..60),
         _ => r.gen_range(0..250),
     };
+    let mut rh = Choice::new(seed).stream(&format!("resp-hold:{nonce}"));
+    let hold_ms = if rh.gen_range(0..12) == 0 { rh.gen_range(1..300) } else { 0 };
     RespSpec {
         status,
         headers,
         body: body_for(seed, nonce, len, 0xBB),
         delay_ms,
+        hold_ms,
     }
 }
 
@@ -207,7 +212,7 @@ pub fn plan_for(seed: u64, tier: Tier, big_ok: bool) -> PlanFn {
         Plan {
             delay: Duration::from_millis(spec.delay_ms),
             response: resp.with_extension(LocalMarker(9)),
-            hold: Duration::ZERO,
+            hold: Duration::from_millis(spec.hold_ms),
         }
     })
 }
